@@ -93,7 +93,7 @@ class Outcome:
         self.samples = []
 
 
-def run_cases(sc, wire, cases, name='b', runtime=True, check=False, show=False, build=True, notes=False, single=False, switches=(True, True, True),
+def run_cases(sc, wire, cases, name='b', runtime=True, check=False, show=False, build=True, notes=False, single=False, collect_gen=False, switches=(True, True, True),
               allow_typeerr=(), gate=True, gen_args=(), tool_timeout=300):
     """Full pipeline on a list of cases. Returns Outcome (violations NOT yet confirmed)."""
     out = Outcome()
@@ -144,6 +144,13 @@ def run_cases(sc, wire, cases, name='b', runtime=True, check=False, show=False, 
         o = allobs[i]
         out.bad.append({'case': b.cases[o['ci'] - 1].case, 'kind': 'tool:' + o['cmd'], 'detail': o})
     out.work = {obs[d]['key']: (obs[d]['work_acyclic'], obs[d]['work_solve']) for d in dirs if obs[d].get('work_acyclic', -1) >= 0}
+    out.gen = {}
+    if collect_gen:
+        for d in wrote:
+            try:
+                out.gen[obs[d]['key']] = (b.by_dir[d].pkgname, open(os.path.join(b.root, d, 'wire_gen.go')).read())
+            except OSError:
+                pass
     out.accepted = sum(1 for d in dirs if obs[d]['wrote'])
     out.rejected = sum(1 for d in dirs if obs[d]['failed'])
     for d in dirs[:2]:
